@@ -58,8 +58,8 @@ impl Exec for UnaryOperation {
     fn exec(&self, interpreter: &mut Interpreter) -> ExecResult {
         let var = self.instruction.exec(interpreter)?;
         Ok(match self.op {
-            UnaryOperator::Sum => sum::exec(var)?,
-            UnaryOperator::Product => product::exec(var)?,
+            UnaryOperator::Sum => sum::exec(var, self.instruction.return_type())?,
+            UnaryOperator::Product => product::exec(var, self.instruction.return_type())?,
             UnaryOperator::Not => not::exec(var),
             UnaryOperator::UnaryMinus => unary_minus::exec(var),
             UnaryOperator::Return => return Err(ExecStop::Return(var)),
